@@ -5,11 +5,14 @@ From Coq Require Import List NArith ZArith Bool.
 From FS Require Import lib.Str lib.Dec gen.OpsGen gen.CmpGen model.Size.
 Import ListNotations.
 
+(* `size as i64` of a u64 *)
+Definition as_i64 (n : N) : Z := if (Z.of_N n <? 9223372036854775808)%Z then Z.of_N n else (Z.of_N n - 18446744073709551616)%Z.
+
 (* Variant::to_int on a value that only has its text *)
 Definition to_int (x : str) : Z :=
   match parse_i64 x with
   | Some z => z
-  | None => match parse_filesize x with Some n => Z.of_N n | None => 0%Z end
+  | None => match parse_filesize x with Some n => as_i64 n | None => 0%Z end
   end.
 
 Definition conforms_int (o : Op) (attr : Z) (literal : str) : bool := cmp_int o attr (to_int literal).
